@@ -25,6 +25,7 @@ enum Point : int
   FE_BEFORE_COMMIT = 3, // log_statement: encoded, before finish_and_commit_write
   FE_FLUSH_WAIT = 4,    // flush_log: inside the wait loop
   FE_DROPPED = 5,       // log_statement: reservation failed on a dropping queue
+  FE_REMOVE_WAIT = 6,   // remove_logger_blocking: inside the wait loop
 
   // unbounded queue
   UQ_BEFORE_PUBLISH_NEXT = 10, // producer: after commit to the old node, before next.store
